@@ -79,7 +79,8 @@ def creations(cls, bits):
 # derive routes: expression in terms of `a` (and CLS = target class name where it matters) giving `d`
 DERIVE = [
     ('ctor', "bitstring.{T}(a)"), ('bits-kw', "bitstring.{T}(bits=a)"), ('auto-kw-copy', "bitstring.{T}(a[:])"),
-    ('bits-prop', "a.bits"), ('copy.copy', "copy.copy(a)"), ('copy()', "a.copy()"), ('slice-all', "a[:]"), ('slice', "a[1:]"), ('slice-step', "a[::2]"),
+    ('bits-prop', "a.bits"), ('copy.copy', "copy.copy(a)"), ('copy.deepcopy', "copy.deepcopy(a)"), ('pickle', "__import__('pickle').loads(__import__('pickle').dumps(a))"),
+    ('deepcopy-in-list', "copy.deepcopy([a, a])[1]"), ('copy()', "a.copy()"), ('slice-all', "a[:]"), ('slice', "a[1:]"), ('slice-step', "a[::2]"),
     ('add-empty', "a + ''"), ('radd-empty', "'' + a"), ('empty-add', "bitstring.{T}() + a"), ('add-bits', "a + bitstring.Bits()"), ('mul1', "a * 1"),
     ('lshift0', "a << 0"), ('rshift0', "a >> 0"), ('and-self', "a & a"), ('or-self', "a | a"), ('xor-zeros', "a ^ bitstring.Bits(len(a))"), ('invert', "~a"),
     ('join1', "bitstring.{T}().join([a])"), ('join2', "bitstring.{T}().join([a, a])"), ('join-sep', "a.join(['0b1', '0b0'])"),
